@@ -26,6 +26,77 @@ DEFAULT_OPAQUE = {'parse_immediate', 'lookup_register', 'is_int', 'log_constant'
                   'sign_extend', 'eval_immediate', 'lex_tokens', 'parse_item', 'read_lines', 'assemble', 'cli_main'}
 
 
+def always_raises(body):
+    return bool(body) and isinstance(body[-1], ast.Raise)
+
+
+def must_statements(body):
+    """Statements executed on every pass through `body` that does not raise: the top level, plus the surviving arm of an `if`
+    whose other arm always raises."""
+    out = []
+    for b in body:
+        if isinstance(b, ast.If):
+            if always_raises(b.orelse) and not always_raises(b.body):
+                out.extend(must_statements(b.body))
+                continue
+            if always_raises(b.body) and b.orelse and not always_raises(b.orelse):
+                out.extend(must_statements(b.orelse))
+                continue
+        out.append(b)
+    return out
+
+
+def walk_eager(node):
+    """Sub-expressions evaluated exactly once when `node` is evaluated: bodies of lambdas, comprehensions, generator expressions
+    (their variables are bound per call / per element) and the lazily evaluated operands of and / or / if-expressions are left out."""
+    todo = [node]
+    while todo:
+        n = todo.pop()
+        yield n
+        if isinstance(n, (ast.Lambda, ast.ListComp, ast.SetComp, ast.DictComp, ast.GeneratorExp)):
+            continue
+        if isinstance(n, ast.BoolOp):
+            todo.append(n.values[0])
+            continue
+        if isinstance(n, ast.IfExp):
+            todo.append(n.test)
+            continue
+        todo.extend(ast.iter_child_nodes(n))
+
+
+def copy_ast(node):
+    """Structural copy of an AST subtree over its _fields only (parent links and other annotations are not followed)."""
+    if isinstance(node, list):
+        return [copy_ast(x) for x in node]
+    if not isinstance(node, ast.AST):
+        return node
+    new = type(node)()
+    for f in node._fields:
+        if hasattr(node, f):
+            setattr(new, f, copy_ast(getattr(node, f)))
+    for a in ('lineno', 'col_offset', 'end_lineno', 'end_col_offset'):
+        if hasattr(node, a):
+            setattr(new, a, getattr(node, a))
+    return new
+
+
+def copy_ast_replacing(node, old, new):
+    if node is old:
+        return new
+    if isinstance(node, list):
+        return [copy_ast_replacing(x, old, new) for x in node]
+    if not isinstance(node, ast.AST):
+        return node
+    out = type(node)()
+    for f in node._fields:
+        if hasattr(node, f):
+            setattr(out, f, copy_ast_replacing(getattr(node, f), old, new))
+    for a in ('lineno', 'col_offset', 'end_lineno', 'end_col_offset'):
+        if hasattr(node, a):
+            setattr(out, a, getattr(node, a))
+    return out
+
+
 def C(v):
     return ('const', v)
 
@@ -191,19 +262,40 @@ class Walker:
                 recv = self.sym(node.func.value, st)
                 if is_const(recv) and isinstance(recv[1], str) and node.func.attr in ('lower', 'upper', 'strip') and not args:
                     return C(getattr(recv[1], node.func.attr)())
+                if recv[0] == 'dict' and node.func.attr == 'get' and args and is_const(args[0]) and all(is_const(k) for k, _ in recv[1]):
+                    for k, v in recv[1]:
+                        if k == args[0]:
+                            return v
+                    return args[1] if len(args) > 1 else C(None)
                 return ('mcall', recv, node.func.attr, args, kwargs)
             if isinstance(node.func, ast.Name):
                 if node.func.id in st.env:
                     target = st.env[node.func.id]
-                    if target[0] == 'lambda' and target[1] in self._lambdas and not kwargs:
-                        lnode, lenv = self._lambdas[target[1]]
-                        params = [a.arg for a in lnode.args.args]
-                        if len(params) == len(args) and not any(a[0] == 'star' for a in args):
-                            s2 = st.clone()
-                            s2.env = dict(lenv)
-                            s2.env.update(zip(params, args))
-                            return self.sym(lnode.body, s2)
+                    r = self.eval_call(target, args, kwargs, st)
+                    if r is not None:
+                        return r
+                    if target[0] == 'name' and target[1] in self.facts.classes:
+                        return ('new', target[1], args, kwargs)
+                    if target[0] == 'name' and target[1] in self.facts.funcs:
+                        return ('call', target[1], args, kwargs)
                     return ('callv', target, args, kwargs)
+                if node.func.id in ('any', 'all') and len(node.args) == 1 and not kwargs and isinstance(node.args[0], (ast.GeneratorExp, ast.ListComp)):
+                    r = self.expand_quantifier(node.func.id, node.args[0], st)
+                    if r is not None:
+                        return r
+                if node.func.id == 'isinstance' and len(args) == 2 and not kwargs and args[1][0] == 'tuple' and args[1][1] \
+                        and all(c[0] == 'name' for c in args[1][1]):
+                    # isinstance(x, (A, B)) is isinstance(x, A) or isinstance(x, B)
+                    alts = tuple(('call', 'isinstance', (args[0], c), ()) for c in args[1][1])
+                    return alts[0] if len(alts) == 1 else ('bool', 'or', alts)
+                if node.func.id == 'getattr' and len(args) == 2 and not kwargs and is_const(args[1]) and isinstance(args[1][1], str):
+                    # getattr(x, 'name') is x.name
+                    v = ('attr', args[0], args[1][1])
+                    f = st.facts.get(v)
+                    return f['eq'] if f and f['eq'] is not None else v
+                if node.func.id in ('list', 'tuple') and len(args) == 1 and not kwargs and args[0][0] in ('list', 'tuple') \
+                        and not any(a[0] == 'star' for a in args[0][1]):
+                    return (node.func.id, args[0][1])
                 pf = self.pure_expr_fn(node.func.id)
                 if pf is not None and not kwargs and not any(a[0] == 'star' for a in args):
                     params = [a.arg for a in pf.args.args]
@@ -220,6 +312,19 @@ class Walker:
                         finally:
                             self._inline_stack.pop()
                 return ('call', node.func.id, args, kwargs)
+            if isinstance(node.func, (ast.Call, ast.Subscript, ast.IfExp)):
+                target = self.sym(node.func, st)
+                r = self.eval_call(target, args, kwargs, st)
+                if r is not None:
+                    return r
+                if target[0] == 'name' and target[1] in self.facts.classes:
+                    return ('new', target[1], args, kwargs)
+                if target[0] == 'name' and target[1] in self.facts.funcs:
+                    return ('call', target[1], args, kwargs)
+                if target[0] == 'call' and target[1] == 'type' and len(target[2]) == 1 and not target[3]:
+                    # type(x)(...) is x.__class__(...)
+                    return ('mcall', target[2][0], '__class__', args, kwargs)
+                return ('callv', target, args, kwargs)
             return ('call', unparse(node.func), args, kwargs)
         if isinstance(node, ast.BinOp):
             a, b = self.sym(node.left, st), self.sym(node.right, st)
@@ -229,6 +334,14 @@ class Walker:
                     return C(fold(ast.BinOp(left=ast.Constant(value=a[1]), op=node.op, right=ast.Constant(value=b[1]))))
                 except NotConstant:
                     pass
+            if op == '+' and a[0] == b[0] and a[0] in ('list', 'tuple'):
+                return (a[0], a[1] + b[1])
+            if op == '+':
+                # string / bytes concatenation with a module-level constant
+                ca = C(self.facts.consts[a[1]]) if a[0] == 'name' and a[1] not in st.env and isinstance(self.facts.consts.get(a[1]), (str, bytes)) else a
+                cb = C(self.facts.consts[b[1]]) if b[0] == 'name' and b[1] not in st.env and isinstance(self.facts.consts.get(b[1]), (str, bytes)) else b
+                if is_const(ca) and is_const(cb) and type(ca[1]) is type(cb[1]) and isinstance(ca[1], (str, bytes)):
+                    return C(ca[1] + cb[1])
             return ('bin', op, a, b)
         if isinstance(node, ast.UnaryOp):
             a = self.sym(node.operand, st)
@@ -244,11 +357,36 @@ class Walker:
             parts = []
             for op, comp in zip(node.ops, node.comparators):
                 right = self.sym(comp, st)
-                parts.append(('cmp', _CMPS[type(op)], left, right))
+                if isinstance(op, (ast.In, ast.NotIn)) and right[0] == 'name' and right[1] not in st.env:
+                    # membership in a small module-level table: the finite set of its keys
+                    tbl = self.facts.tables.get(right[1])
+                    if tbl is None and isinstance(self.facts.consts.get(right[1]), (dict, set, frozenset, list, tuple)):
+                        tbl = self.facts.consts[right[1]]
+                    if tbl is not None and 0 < len(tbl) <= 8 and all(isinstance(k, (str, int)) for k in tbl):
+                        right = ('tuple', tuple(C(k) for k in tbl))
+                c_ = ('cmp', _CMPS[type(op)], left, right)
+                if is_const(left) and is_const(right) and _CMPS[type(op)] in ('==', '!=', 'is', 'is not'):
+                    # constant comparison (None == 0 after inlining a helper that returned None)
+                    d_ = self.decide(c_, st)
+                    if d_ is not None:
+                        c_ = C(d_)
+                parts.append(c_)
                 left = right
             return parts[0] if len(parts) == 1 else ('bool', 'and', tuple(parts))
         if isinstance(node, ast.BoolOp):
-            return ('bool', 'and' if isinstance(node.op, ast.And) else 'or', tuple(self.sym(v, st) for v in node.values))
+            vals = tuple(self.sym(v, st) for v in node.values)
+            is_and = isinstance(node.op, ast.And)
+            # short-circuit folding of constant operands: `False and x` is False, `True and x` is x (same for or)
+            out = []
+            for i_, v in enumerate(vals):
+                if is_const(v) and i_ < len(vals) - 1:
+                    if bool(v[1]) != is_and:
+                        return v               # decides the whole expression
+                    continue                   # neutral element: skipped
+                out.append(v)
+            if len(out) == 1:
+                return out[0]
+            return ('bool', 'and' if is_and else 'or', tuple(out))
         if isinstance(node, (ast.List, ast.Tuple, ast.Set)):
             kind = {ast.List: 'list', ast.Tuple: 'tuple', ast.Set: 'set'}[type(node)]
             elts = tuple(('star', self.sym(e.value, st)) if isinstance(e, ast.Starred) else self.sym(e, st) for e in node.elts)
@@ -263,10 +401,29 @@ class Walker:
                 sl = node.slice
                 return ('slice', base, self.sym(sl.lower, st), self.sym(sl.upper, st), self.sym(sl.step, st))
             idx = self.sym(node.slice, st)
+            if not is_const(idx):
+                f_ = st.facts.get(idx)
+                if f_ and f_['eq'] is not None:
+                    idx = f_['eq']
+            if base[0] == 'name' and is_const(idx) and base[1] not in self.facts.consts and base[1] in self.facts.tables \
+                    and idx[1] in self.facts.tables[base[1]]:
+                # a module-level table of named bindings (classes / functions) indexed by a constant
+                return ('name', self.facts.tables[base[1]][idx[1]])
+            if base[0] == 'name' and is_const(idx) and isinstance(self.facts.consts.get(base[1]), (dict, list, tuple)):
+                # a module-level constant table indexed by a constant
+                try:
+                    r = self.facts.consts[base[1]][idx[1]]
+                    if isinstance(r, (int, str, bytes, bool, type(None))):
+                        return C(r)
+                except (KeyError, IndexError, TypeError):
+                    pass
             if base[0] == 'dict' and is_const(idx):
                 for k, v in base[1]:
                     if k == idx:
                         return v
+            if base[0] in ('list', 'tuple') and is_const(idx) and isinstance(idx[1], int) and not isinstance(idx[1], bool) \
+                    and -len(base[1]) <= idx[1] < len(base[1]) and not any(e[0] == 'star' for e in base[1]):
+                return base[1][idx[1]]
             return ('sub', base, idx)
         if isinstance(node, ast.DictComp) and len(node.generators) == 1:
             g = node.generators[0]
@@ -285,15 +442,183 @@ class Walker:
             return ('comp', type(node).__name__, self.sym(node.elt, inner), ','.join(names), self.sym(g.iter, st),
                     tuple(self.sym(c, inner) for c in g.ifs))
         if isinstance(node, ast.IfExp):
-            return ('ifexp', self.sym(node.test, st), self.sym(node.body, st), self.sym(node.orelse, st))
+            t = self.sym(node.test, st)
+            d = self.decide(t, st)
+            if d is not None:
+                return self.sym(node.body if d else node.orelse, st)
+            return ('ifexp', t, self.sym(node.body, st), self.sym(node.orelse, st))
         if isinstance(node, ast.Starred):
             return ('star', self.sym(node.value, st))
         if isinstance(node, ast.JoinedStr):
             return ('opaque', unparse(node))
         if isinstance(node, ast.Lambda):
-            self._lambdas[id(node)] = (node, dict(st.env))
-            return ('lambda', id(node), unparse(node))
+            uid = self.new_fnval(node, dict(st.env))
+            return ('lambda', uid, unparse(node))
         return ('opaque', unparse(node))
+
+    # -- function values ------------------------------------------------------------------------------------------------
+    def new_fnval(self, node, env):
+        store = self.__dict__.setdefault('_fnvals', {})
+        uid = len(store) + 1
+        store[uid] = (node, env)
+        self._lambdas[uid] = (node, env)
+        return uid
+
+    def fn_of_value(self, v):
+        """(function node, captured env or None) of a lambda / closure value."""
+        if v[0] == 'lambda':
+            return self.__dict__.get('_fnvals', {}).get(v[1], (None, None))
+        if v[0] == 'closure' and len(v) > 2:
+            node = self.__dict__.get('_closures', {}).get(v[2])
+            env = None
+            if len(v) > 3 and v[3] is not None:
+                env = self.__dict__.get('_fnvals', {}).get(v[3], (None, None))[1]
+            return node, env
+        return None, None
+
+    def bind_args(self, fn, args, kwargs, env):
+        """Bind symbolic argument values to the parameters of `fn` in `env` (in place); False if they do not fit."""
+        a = fn.args
+        pos = [x.arg for x in a.posonlyargs + a.args]
+        if any(x[0] == 'star' for x in args):
+            return False
+        if len(args) > len(pos) and not a.vararg:
+            return False
+        for p_, v in zip(pos, args):
+            env[p_] = v
+        bound = set(pos[:len(args)])
+        if a.vararg:
+            env[a.vararg.arg] = ('tuple', tuple(args[len(pos):]))
+        names = set(pos) | {x.arg for x in a.kwonlyargs}
+        extra = []
+        for k, v in kwargs:
+            if k is None:
+                return False
+            if k in names and k not in bound:
+                env[k] = v
+                bound.add(k)
+            elif a.kwarg and k not in names:
+                extra.append((k, v))
+            else:
+                return False
+        if a.kwarg:
+            env[a.kwarg.arg] = ('kwdict', tuple(extra))
+        defaults = dict(zip(pos[len(pos) - len(a.defaults):], a.defaults))
+        for x, d in zip(a.kwonlyargs, a.kw_defaults):
+            if d is not None:
+                defaults[x.arg] = d
+        for p_ in pos + [x.arg for x in a.kwonlyargs]:
+            if p_ not in bound:
+                if p_ not in defaults:
+                    return False
+                env[p_] = self.sym(defaults[p_], PathState())
+        return True
+
+    PURE_EVENTS = ('value', 'return', 'cond', 'with', 'endwith', 'try', 'endtry', 'except')
+
+    def merge_paths(self, vals, depth):
+        """[(path, value)] of the effect-free paths of one call -> a single (conditional) value, or None."""
+        if len(vals) == 1:
+            return vals[0][1]
+        if all(v == vals[0][1] for _, v in vals):
+            return vals[0][1]
+        if depth == 0:
+            # `try: <compute and return X>  except E: return <constant>`: the handler paths describe the failing evaluations of
+            # X; the value of the call where X is defined is X (the fallback constant is recorded on the value)
+            handler = [(p, v) for p, v in vals if any(e[0] == 'except' for e in p.events)]
+            normal = [(p, v) for p, v in vals if not any(e[0] == 'except' for e in p.events)]
+            if handler and normal and all(is_const(v) for _, v in handler) and len({v for _, v in handler}) == 1:
+                inner = self.merge_paths(normal, 0)
+                if inner is None:
+                    return None
+                return ('orelse', inner, handler[0][1])
+        tests = [p.conds[depth][0] if len(p.conds) > depth else None for p, _ in vals]
+        if any(t is None or t != tests[0] for t in tests):
+            return None
+        yes = [(p, v) for p, v in vals if p.conds[depth][1]]
+        no = [(p, v) for p, v in vals if not p.conds[depth][1]]
+        if not yes or not no:
+            return self.merge_paths(vals, depth + 1)
+        a, b = self.merge_paths(yes, depth + 1), self.merge_paths(no, depth + 1)
+        if a is None or b is None:
+            return None
+        return ('ifexp', tests[0], a, b)
+
+    def eval_call(self, target, args, kwargs, st):
+        """Value of calling a lambda / local-closure value when its body is a single effect-free path (predicate factories,
+        builders, small local helpers used inside expressions); None when it cannot be evaluated in place."""
+        fn, cenv = self.fn_of_value(target)
+        if fn is None:
+            return None
+        depth = self.__dict__.setdefault('_eval_depth', [0])
+        name = getattr(fn, 'name', '<lambda>')
+        if depth[0] >= 8 or (name != '<lambda>' and self._inline_stack.count(name) >= 2):
+            return None
+        env = dict(cenv) if cenv is not None else dict(st.env)
+        if not self.bind_args(fn, args, kwargs, env):
+            return None
+        s2 = st.clone()
+        s2.env = env
+        s2.events = []
+        s2.conds = []
+        depth[0] += 1
+        self._inline_stack.append(name)
+        try:
+            if isinstance(fn, ast.Lambda):
+                return self.sym(fn.body, s2)
+            if any(isinstance(n, (ast.Nonlocal, ast.Global, ast.Yield, ast.YieldFrom)) for n in ast.walk(fn)):
+                return None
+            saved = self.n_paths
+            done = []
+            try:
+                live = self.block(fn.body, s2, done)
+            except AnalysisError:
+                return None
+            finally:
+                self.n_paths = saved
+            paths = list(done) + list(live)
+            if not paths or len(paths) > 48:
+                return None
+            vals = []
+            for p in paths:
+                if any(e[0] not in self.PURE_EVENTS for e in p.events):
+                    return None
+                if p in live:
+                    vals.append((p, C(None)))
+                elif p.end == 'return':
+                    vals.append((p, [e for e in p.events if e[0] == 'return'][-1][1]))
+                else:
+                    return None
+            return self.merge_paths(vals, 0)
+        finally:
+            self._inline_stack.pop()
+            depth[0] -= 1
+
+    def expand_quantifier(self, which, comp, st):
+        """any(...) / all(...) over a comprehension whose iterable is a literal sequence: the finite disjunction / conjunction."""
+        if len(comp.generators) != 1:
+            return None
+        g = comp.generators[0]
+        it = self.sym(g.iter, st)
+        if it[0] not in ('list', 'tuple') or len(it[1]) > 32 or any(e[0] == 'star' for e in it[1]):
+            return None
+        vals = []
+        for e in it[1]:
+            s2 = st.clone()
+            try:
+                self.assign(g.target, e, s2, comp)
+            except AnalysisError:
+                return None
+            conds = [self.sym(c, s2) for c in g.ifs]
+            v = self.sym(comp.elt, s2)
+            if conds:
+                v = ('bool', 'and', tuple(conds) + (v,)) if which == 'any' else ('bool', 'or', tuple(('un', 'not', c) for c in conds) + (v,))
+            vals.append(v)
+        if not vals:
+            return C(which == 'all')
+        if len(vals) == 1:
+            return vals[0]
+        return ('bool', 'or' if which == 'any' else 'and', tuple(vals))
 
     # -- deciding tests --------------------------------------------------------------------------------------------
     def class_is(self, cls, base):
@@ -349,7 +674,7 @@ class Walker:
                     return r if op in ('==', 'is') else not r
                 if is_const(b):
                     f = st.facts.get(a)
-                    if a[0] == 'new' and b[1] is None:
+                    if a[0] in ('new', 'lambda', 'closure', 'list', 'tuple', 'dict', 'set') and b[1] is None:
                         return op in ('!=', 'is not')
                     if f:
                         if f['eq'] is not None:
@@ -590,6 +915,12 @@ class Walker:
         cache[name] = res
         return res
 
+    def small_closure(self, fn):
+        """A local helper (`def emit(x): nonlocal position; position += x.size(); out.append(x)`) whose effects belong to the
+        enclosing function's path: no loops, no nested definitions."""
+        return not any(isinstance(n, (ast.For, ast.While, ast.FunctionDef, ast.Lambda, ast.Yield, ast.YieldFrom)) and n is not fn
+                       for n in ast.walk(fn))
+
     def inline_target(self, call, st):
         """FunctionDef to inline for this Call node, or None."""
         if not (isinstance(call, ast.Call) and isinstance(call.func, ast.Name)):
@@ -599,9 +930,10 @@ class Walker:
             return None
         if name in st.env:
             v = st.env[name]
-            if self.inline_mode == 'all' and v[0] == 'closure' and len(v) > 2 and name not in self.opaque:
+            if v[0] == 'closure' and len(v) > 2 and name not in self.opaque:
                 fn = self.__dict__.get('_closures', {}).get(v[2])
-                if fn is not None and name not in self._inline_stack:
+                if fn is not None and isinstance(fn, ast.FunctionDef) and name not in self._inline_stack and not fn.args.vararg \
+                        and len(self._inline_stack) < 8 and (self.inline_mode == 'all' or self.small_closure(fn)):
                     return fn
             return None
         if name not in self.facts.funcs or name in self.opaque or name in self._inline_stack:
@@ -629,6 +961,10 @@ class Walker:
             return None
         is_closure = call.func.id in st.env
         env = dict(st.env) if is_closure else {}
+        if is_closure:
+            _, cenv = self.fn_of_value(st.env[call.func.id])
+            if cenv is not None:
+                env = dict(cenv)
         for p_, a in zip(pos, call.args):
             env[p_] = self.sym(a, st)
         extra = []
@@ -673,8 +1009,20 @@ class Walker:
             for i_ in range(n0, len(s.events)):
                 s.sites[i_] = call
         out = []
+        shared = set()
+        if is_closure:
+            for n in ast.walk(fn):
+                if isinstance(n, (ast.Nonlocal, ast.Global)):
+                    shared.update(n.names)
+
+        def back(s):
+            env2 = dict(caller_env)
+            for n in shared:
+                if n in s.env:
+                    env2[n] = s.env[n]
+            s.env = env2
         for s in live:
-            s.env = dict(caller_env)
+            back(s)
             out.append((s, C(None)))
         for s in inner_done:
             if s.end == 'return':
@@ -682,28 +1030,63 @@ class Walker:
                 s.events.remove(ret)
                 s.end = None
                 s.end_node = None
-                s.env = dict(caller_env)
+                back(s)
                 out.append((s, ret[1]))
             else:
-                s.env = dict(caller_env)
+                back(s)
                 done.append(s)
         return out
 
     def expand_calls(self, node, st, done):
         """Hoist inlinable calls nested inside an expression: [(state, rewritten expression)] where every such call has been
-        walked (forking paths as needed) and replaced by a temporary holding its symbolic result."""
-        import copy as _copy
-        if node is None or not any(isinstance(n, ast.Call) and self.inline_target(n, st) is not None for n in ast.walk(node)):
+        walked (forking paths as needed) and replaced by a temporary holding its symbolic result; conditional expressions whose
+        test the path facts do not decide fork the path (x = a if t else b  is  if t: x = a  else: x = b)."""
+        out = []
+        for s_, e in self._expand_calls(node, st, done):
+            out.extend(self.split_ifexp(e, s_))
+        return out
+
+    def split_ifexp(self, node, st, depth=0):
+        if node is None or depth > 4:
             return [(st, node)]
-        node = _copy.deepcopy(node)
+        target = None
+        for n in walk_eager(node):
+            if isinstance(n, ast.IfExp):
+                target = n
+                break
+        if target is None:
+            return [(st, node)]
+        test = self.sym(target.test, st)
+        d = self.decide(test, st)
+        out = []
+        for pol in (True, False):
+            if d is not None and d != pol:
+                continue
+            s2 = st.clone() if d is None else st
+            if d is None:
+                self.assume(test, pol, s2)
+                s2.conds.append((test, pol, target))
+                s2.events.append(('cond', test, pol, target))
+            chosen = target.body if pol else target.orelse
+            if target is node:
+                new = chosen
+            else:
+                new = copy_ast_replacing(node, target, chosen)
+            out.extend(self.split_ifexp(new, s2, depth + 1))
+        return out
+
+    def _expand_calls(self, node, st, done):
+        if node is None or not any(isinstance(n, ast.Call) and self.inline_target(n, st) is not None for n in walk_eager(node)):
+            return [(st, node)]
+        node = copy_ast(node)
         states = [st]
         counter = self.__dict__.setdefault('_tmp', [0])
         while True:
             # innermost inlinable call
             target = None
-            for n in ast.walk(node):
+            for n in walk_eager(node):
                 if isinstance(n, ast.Call) and self.inline_target(n, states[0]) is not None:
-                    inner = [m for m in ast.walk(n) if m is not n and isinstance(m, ast.Call) and self.inline_target(m, states[0]) is not None]
+                    inner = [m for m in walk_eager(n) if m is not n and isinstance(m, ast.Call) and self.inline_target(m, states[0]) is not None]
                     if not inner:
                         target = n
                         break
@@ -765,7 +1148,47 @@ class Walker:
             return self._assign_stmt(node, st, done, node)
         return self._stmt_rest(node, st, done)
 
+    def first_match_next(self, node, st):
+        """`X = next((k for k, preds in TABLE.items() if all(pred(args) for pred in preds)), default)`: (target name, keys,
+        predicate text, iterable value, default value) - the generator form of the first-match search loop - else None."""
+        val = node.value
+        if not (isinstance(val, ast.Call) and isinstance(val.func, ast.Name) and val.func.id == 'next' and 1 <= len(val.args) <= 2
+                and len(node.targets) == 1 and isinstance(node.targets[0], ast.Name)):
+            return None
+        g = val.args[0]
+        if isinstance(g, ast.Name):
+            g = self.__dict__.setdefault('_genexps', {}).get((id(st.env.get(g.id)), g.id))
+        if not (isinstance(g, ast.GeneratorExp) and len(g.generators) == 1):
+            return None
+        gen = g.generators[0]
+        if not (isinstance(gen.target, ast.Tuple) and len(gen.target.elts) == 2 and isinstance(g.elt, ast.Name)
+                and isinstance(gen.target.elts[0], ast.Name) and g.elt.id == gen.target.elts[0].id and len(gen.ifs) == 1
+                and isinstance(gen.ifs[0], ast.Call) and dotted(gen.ifs[0].func) == 'all'):
+            return None
+        it = self.sym(gen.iter, st)
+        if not (it[0] == 'mcall' and it[2] == 'items' and it[1][0] == 'dict' and all(is_const(k) for k, _ in it[1][1])):
+            return None
+        default = self.sym(val.args[1], st) if len(val.args) == 2 else ('opaque', 'StopIteration')
+        return node.targets[0].id, [k[1] for k, _ in it[1][1]], unparse(gen.ifs[0]), it, default
+
     def _assign_stmt(self, node, st, done, orig):
+        if isinstance(node.value, ast.GeneratorExp) and len(node.targets) == 1 and isinstance(node.targets[0], ast.Name):
+            # remember the expression behind a generator bound to a local (consumed later by next())
+            v = self.sym(node.value, st)
+            st.env[node.targets[0].id] = v
+            self.__dict__.setdefault('_genexps', {})[(id(v), node.targets[0].id)] = node.value
+            return [st]
+        fm = self.first_match_next(node, st)
+        if fm is not None:
+            var, keys, pred_text, it, default = fm
+            st.events.append(('search', it, pred_text, orig))
+            out = []
+            for kv in keys + [None]:
+                s2 = st.clone()
+                s2.env[var] = C(kv) if kv is not None else default
+                s2.events.append(('matched', C(kv), orig))
+                out.append(s2)
+            return out
         if True:
             v = self.sym(node.value, st)
             if self.name_results and v[0] in ('call', 'mcall', 'callv', 'ctx') and any(isinstance(n, ast.Call) for n in ast.walk(node.value)):
@@ -839,8 +1262,15 @@ class Walker:
                 s.events.append(('endwith', None, node))
             return out
         if isinstance(node, (ast.FunctionDef, ast.ClassDef)):
-            st.env[node.name] = ('closure', node.name, id(node))
             self.__dict__.setdefault('_closures', {})[id(node)] = node
+            if self._inline_stack or self.__dict__.get('_eval_depth', [0])[0] > 0:
+                # defined inside a frame that is being evaluated: the frame's variables are captured as they are now
+                env = dict(st.env)
+                uid = self.new_fnval(node, env)
+                st.env[node.name] = ('closure', node.name, id(node), uid)
+                env[node.name] = st.env[node.name]
+            else:
+                st.env[node.name] = ('closure', node.name, id(node))
             return [st]
         if isinstance(node, (ast.Import, ast.ImportFrom)):
             st.events.append(('import', unparse(node), node))
@@ -873,7 +1303,17 @@ class Walker:
                     idx = i if not star or i < star[0] else i - n
                     self.assign(e, ('unpack', v, str(idx), n if not star else -n), st, node)
         elif isinstance(tgt, ast.Subscript):
-            st.events.append(('setitem', self.sym(tgt.value, st), self.sym(tgt.slice, st), v, node))
+            base, key = self.sym(tgt.value, st), self.sym(tgt.slice, st)
+            st.events.append(('setitem', base, key, v, node))
+            if base[0] == 'dict' and is_const(key) and all(is_const(k) for k, _ in base[1]):
+                # a dict literal held in a local: keep its value up to date (every name bound to this object)
+                items = tuple((k, (v if k == key else x)) for k, x in base[1])
+                if all(k != key for k, _ in base[1]):
+                    items = items + ((key, v),)
+                new = ('dict', items) + base[2:]
+                for n_, val in list(st.env.items()):
+                    if val == base:
+                        st.env[n_] = new
         elif isinstance(tgt, ast.Attribute):
             st.events.append(('setattr', self.sym(tgt.value, st), tgt.attr, v, node))
         else:
@@ -905,6 +1345,14 @@ class Walker:
                     s2.events.append(('matched', C(None), node))
                 out.append(s2)
             return out
+        if it[0] in ('tuple', 'list') and len(it[1]) <= 32 and not any(e[0] == 'star' for e in it[1]) and not node.orelse:
+            return self.unrolled_for(node, it, st, done)
+        upd = self.dict_update_loop(node)
+        if upd is not None:
+            # for k, v in D.items(): [if test:] D[k] = f(v)     is     D.update({k: f(v) for k, v in D.items() [if test]})
+            dnode, comp = upd
+            st.events.append(('mcall', self.sym(dnode, st), 'update', (self.sym(comp, st),), (), node))
+            return [st]
         # generic
         names = self.assigned_names([node])
         s0 = st.clone()
@@ -918,7 +1366,7 @@ class Walker:
         out = []
         # accumulator idiom: a local extended/appended exactly once per iteration at the top level of the loop body
         accs = {}
-        for b in node.body:
+        for b in must_statements(node.body):
             if (isinstance(b, ast.Expr) and isinstance(b.value, ast.Call) and isinstance(b.value.func, ast.Attribute)
                     and b.value.func.attr in ('extend', 'append') and isinstance(b.value.func.value, ast.Name)
                     and len(b.value.args) == 1 and b.value.func.value.id in st.env):
@@ -964,6 +1412,64 @@ class Walker:
         out.append(s0)
         return out
 
+    def dict_update_loop(self, node):
+        """(dict expression, equivalent DictComp node) for a loop that rewrites the values of the dict it iterates, else None."""
+        if node.orelse or not (isinstance(node.target, ast.Tuple) and len(node.target.elts) == 2 and all(isinstance(e, ast.Name) for e in node.target.elts)):
+            return None
+        it = node.iter
+        if isinstance(it, ast.Call) and isinstance(it.func, ast.Name) and it.func.id in ('list', 'tuple') and len(it.args) == 1:
+            it = it.args[0]
+        if not (isinstance(it, ast.Call) and isinstance(it.func, ast.Attribute) and it.func.attr == 'items' and not it.args
+                and isinstance(it.func.value, ast.Name)):
+            return None
+        dname = it.func.value.id
+        k, v = node.target.elts[0].id, node.target.elts[1].id
+        body = node.body
+        tests = []
+        while len(body) == 1 and isinstance(body[0], ast.If) and not body[0].orelse:
+            tests.append(body[0].test)
+            body = body[0].body
+        if not (len(body) == 1 and isinstance(body[0], ast.Assign) and len(body[0].targets) == 1):
+            return None
+        tgt = body[0].targets[0]
+        if not (isinstance(tgt, ast.Subscript) and isinstance(tgt.value, ast.Name) and tgt.value.id == dname
+                and isinstance(tgt.slice, ast.Name) and tgt.slice.id == k):
+            return None
+        if any(isinstance(n, ast.Name) and n.id == dname for t in tests + [body[0].value] for n in ast.walk(t)):
+            return None
+        comp = ast.DictComp(key=ast.Name(id=k, ctx=ast.Load()), value=body[0].value,
+                            generators=[ast.comprehension(target=node.target, iter=it, ifs=tests, is_async=0)])
+        ast.copy_location(comp, node)
+        ast.fix_missing_locations(comp)
+        return it.func.value, comp
+
+    def unrolled_for(self, node, it, st, done):
+        """`for x in (<literal elements>)`: the body is walked once per element, in order."""
+        states = [st]
+        exited = []
+        for e in it[1]:
+            nxt = []
+            for s in states:
+                self.assign(node.target, e, s, node)
+                inner_done = []
+                live = self.block(node.body, s, inner_done)
+                for s2 in inner_done:
+                    if s2.end == 'continue':
+                        s2.end = None
+                        s2.end_node = None
+                        live.append(s2)
+                    elif s2.end == 'break':
+                        s2.end = None
+                        s2.end_node = None
+                        exited.append(s2)
+                    else:
+                        done.append(s2)
+                nxt.extend(live)
+            states = nxt
+            if len(states) + len(exited) > 256:
+                raise AnalysisError('path explosion while unrolling the loop at line {}'.format(node.lineno))
+        return states + exited
+
     def search_keys(self, node, it, st):
         """`for k, preds in TABLE.items(): if all(pred(args) for pred in preds): X = k; break` -> (X, keys, call shape)."""
         if not (len(node.body) == 1 and isinstance(node.body[0], ast.If) and not node.orelse and not node.body[0].orelse):
@@ -999,16 +1505,25 @@ class Walker:
         inner_done = []
         live = self.block(node.body, s1, inner_done)
         out = []
+        forever = self.decide(test, st) is True and is_const(test)
         for s in live + [s for s in inner_done if s.end in ('continue', 'break')]:
+            broke = s.end == 'break'
+            if forever and not broke:
+                continue           # `while True:` is only ever left through break / return / raise
             s.end = None
-            s.events.append(('endwhile', self.sym(node.test, s), node))
+            if broke and forever:
+                # the facts the exit rests on are the `if ...: break` conditions already on the path
+                s.events.append(('endwhile', C(False), node))
+            else:
+                s.events.append(('endwhile', self.sym(node.test, s), node))
             out.append(s)
         for s in inner_done:
             if s.end in ('raise', 'return'):
                 done.append(s)
-        s0 = st.clone()
-        s0.events.append(('endwhile0', test, node))
-        out.append(s0)
+        if not forever:
+            s0 = st.clone()
+            s0.events.append(('endwhile0', test, node))
+            out.append(s0)
         return out
 
     def try_stmt(self, node, st, done):
@@ -1055,29 +1570,94 @@ class Walker:
         return out
 
 
-def loop_paths(facts, fn, loop=None, loop_var_name=None, seed=None):
-    """Path summaries of one iteration of the (first top-level) `for X in Y` loop of function `fn`;
-    returns (prelude state env, loop node, [PathState])."""
-    w = Walker(facts)
-    pre = PathState()
-    for a in fn.args.args + fn.args.kwonlyargs:
-        pre.env[a.arg] = ('name', a.arg)
-    target = None
-    prelude_done = []
+def main_loop(fn):
+    """The top-level `for` of a pass that walks its input: the one iterating over a parameter (or enumerate / zip of one); if
+    there is none, the first top-level `for`."""
+    params = {a.arg for a in fn.args.args + fn.args.kwonlyargs}
+    tops = [n for n in fn.body if isinstance(n, ast.For)]
+    for n in tops:
+        it = n.iter
+        if isinstance(it, ast.Call) and isinstance(it.func, ast.Name) and it.func.id in ('enumerate', 'list', 'iter', 'reversed', 'zip') and it.args:
+            it = it.args[0]
+        if isinstance(it, ast.Name) and it.id in params:
+            return n
+    return tops[0] if tops else None
+
+
+def skeleton_call(facts, fn):
+    """A pass written as `return skeleton(<args>)` (or `x = skeleton(<args>); return x`) where `skeleton` is a module-level
+    function that contains the item loop: (call node, skeleton FunctionDef), else None."""
+    rets = [n for n in fn.body if isinstance(n, ast.Return) and n.value is not None]
+    if len(rets) != 1 or any(isinstance(n, (ast.For, ast.While)) for n in fn.body):
+        return None
+    v = rets[0].value
+    if isinstance(v, ast.Name):
+        defs = [n for n in fn.body if isinstance(n, ast.Assign) and len(n.targets) == 1 and isinstance(n.targets[0], ast.Name) and n.targets[0].id == v.id]
+        if len(defs) != 1:
+            return None
+        v = defs[0].value
+    if isinstance(v, ast.Call) and isinstance(v.func, ast.Name) and v.func.id in facts.funcs:
+        sk = facts.funcs[v.func.id]
+        if sk is not fn and main_loop(sk) is not None and not any(isinstance(a, ast.Starred) for a in v.args):
+            return v, sk
+    return None
+
+
+def skeleton_paths(facts, fn, sk, w, pre, seed):
+    """loop_paths for a pass that delegates its loop to a higher-order skeleton: the skeleton's loop is walked with its
+    parameters bound to the pass's arguments (local converter closures included)."""
+    call, skfn = sk
     live = [pre]
+    done = []
     for node in fn.body:
-        if isinstance(node, ast.For) and (loop is None or node is loop):
+        if isinstance(node, ast.Return) or (isinstance(node, ast.Assign) and node.value is call):
+            break
+        nxt = []
+        for s in live:
+            nxt.extend(w.stmt(node, s, done))
+        live = nxt
+    out_live, results, target = [], [], None
+    for s in live:
+        env = dict(s.env)
+        args = tuple(w.sym(a, s) for a in call.args)
+        kwargs = tuple((k.arg, w.sym(k.value, s)) for k in call.keywords)
+        if not w.bind_args(skfn, args, kwargs, env):
+            raise AnalysisError('cannot bind the arguments of {} in {}'.format(skfn.name, fn.name))
+        s2 = s.clone()
+        s2.env = env
+        # a parameter of the skeleton that receives the pass's own item list keeps the parameter identity
+        for a in skfn.args.args:
+            v = env.get(a.arg)
+            if isinstance(v, tuple) and v and v[0] == 'name' and v[1] in {x.arg for x in fn.args.args}:
+                env[a.arg] = ('name', a.arg)
+        pre2, target, res = _loop_paths_in(facts, skfn, w, s2, seed)
+        out_live.extend(pre2)
+        results.extend(res)
+    for r in results:
+        r.walker = w
+        r.loop_fn = skfn
+    return out_live, target, results
+
+
+def _loop_paths_in(facts, fn, w, pre, seed):
+    loop = main_loop(fn)
+    live = [pre]
+    done = []
+    target = None
+    for node in fn.body:
+        if node is loop:
             target = node
             break
         nxt = []
         for s in live:
-            nxt.extend(w.stmt(node, s, prelude_done))
+            nxt.extend(w.stmt(node, s, done))
         live = nxt
     if target is None:
         raise AnalysisError('anchor vanished: main loop of {}'.format(fn.name))
-    if len(live) != 1:
-        # several prelude paths (rare): take them all
-        pass
+    return live, target, _walk_loop(w, fn, target, live, seed)
+
+
+def _walk_loop(w, fn, target, live, seed):
     results = []
     mutated = set()
     for n in ast.walk(target):
@@ -1088,6 +1668,7 @@ def loop_paths(facts, fn, loop=None, loop_var_name=None, seed=None):
             mutated.add(n.func.value.id)
         if isinstance(n, ast.Subscript) and isinstance(n.ctx, ast.Store) and isinstance(n.value, ast.Name):
             mutated.add(n.value.id)
+    mutated |= closure_effects(fn, target)
     params = {a.arg for a in fn.args.args + fn.args.kwonlyargs}
     for s in live:
         s = s.clone()
@@ -1105,4 +1686,74 @@ def loop_paths(facts, fn, loop=None, loop_var_name=None, seed=None):
                 if isinstance(e, ast.Name):
                     s.env[e.id] = ('item', e.id)
         results.extend(w.run(target.body, s))
+    return results
+
+
+def local_closures(fn):
+    return {st.name: st for st in ast.walk(fn) if isinstance(st, ast.FunctionDef) and st is not fn}
+
+
+def closure_effects(fn, region):
+    """Names of the enclosing function's locals that local closures called (transitively) from `region` rebind (nonlocal) or
+    mutate in place."""
+    closures = local_closures(fn)
+    out = set()
+    seen = set()
+    todo = [n.func.id for n in ast.walk(region) if isinstance(n, ast.Call) and isinstance(n.func, ast.Name) and n.func.id in closures]
+    while todo:
+        name = todo.pop()
+        if name in seen:
+            continue
+        seen.add(name)
+        c = closures[name]
+        own = {a.arg for a in c.args.args + c.args.kwonlyargs}
+        nonlocal_names = set()
+        for n in ast.walk(c):
+            if isinstance(n, ast.Nonlocal):
+                nonlocal_names.update(n.names)
+        for n in ast.walk(c):
+            if isinstance(n, ast.Name) and isinstance(n.ctx, ast.Store) and n.id in nonlocal_names:
+                out.add(n.id)
+            if (isinstance(n, ast.Call) and isinstance(n.func, ast.Attribute) and isinstance(n.func.value, ast.Name)
+                    and n.func.attr in MUTATORS and n.func.value.id not in own):
+                out.add(n.func.value.id)
+            if isinstance(n, ast.Subscript) and isinstance(n.ctx, ast.Store) and isinstance(n.value, ast.Name) and n.value.id not in own:
+                out.add(n.value.id)
+            if isinstance(n, ast.Call) and isinstance(n.func, ast.Name) and n.func.id in closures:
+                todo.append(n.func.id)
+    return out
+
+
+def loop_paths(facts, fn, loop=None, loop_var_name=None, seed=None):
+    """Path summaries of one iteration of the (first top-level) `for X in Y` loop of function `fn`;
+    returns (prelude state env, loop node, [PathState])."""
+    w = Walker(facts)
+    pre = PathState()
+    for a in fn.args.args + fn.args.kwonlyargs:
+        pre.env[a.arg] = ('name', a.arg)
+    target = None
+    prelude_done = []
+    live = [pre]
+    if loop is None:
+        loop = main_loop(fn)
+    if loop is None:
+        sk = skeleton_call(facts, fn)
+        if sk is not None:
+            return skeleton_paths(facts, fn, sk, w, pre, seed)
+    for node in fn.body:
+        if isinstance(node, ast.For) and (loop is None or node is loop):
+            target = node
+            break
+        nxt = []
+        for s in live:
+            nxt.extend(w.stmt(node, s, prelude_done))
+        live = nxt
+    if target is None:
+        raise AnalysisError('anchor vanished: main loop of {}'.format(fn.name))
+    if len(live) != 1:
+        # several prelude paths (rare): take them all
+        pass
+    results = _walk_loop(w, fn, target, live, seed)
+    for r in results:
+        r.walker = w
     return live, target, results
